@@ -95,13 +95,14 @@ func main() {
 	start := time.Now()
 	c := core.NewCtx(id, tier, seed)
 	core.OnHang = func(c *core.Ctx) { os.Exit(c.Finish(ch.Meta(c), start)) }
-	if ch.Scenarios != nil {
-		core.RunIsolated(ch, c, only)
-	} else {
+	if ch.Run != nil && only == "" {
 		pv, where := core.Catch(func() { ch.Run(c) })
 		if pv != nil {
 			c.Inconclusive(fmt.Sprintf("harness panic outside a guarded call: %v at %s", pv, where))
 		}
+	}
+	if ch.Scenarios != nil {
+		core.RunIsolated(ch, c, only)
 	}
 	if replayKey != "" {
 		fmt.Printf("replay of %q at tier=%s seed=%d\n", replayKey, tier, seed)
